@@ -241,8 +241,8 @@ theorem gen_rangeNanRejected : Gen.rangeNanRejected = true := by decide
 
 /-- guard of the RANGE theorem: the bounds are numbers (a NaN bound cannot be written in a chain text: `parse` refuses
 it; it can only be passed to the constructor directly), and an int value is exactly representable as a binary64 (the code
-compares `float(value)`; beyond 2^53 rounding may move the value across a bound, and beyond 2^1024 `float()` raises
-OverflowError — known finding F36). -/
+compares `float(value)`; beyond 2^53 rounding may move the value across a bound, and beyond 2^1024 the value has no
+binary64 at all and is reported as out of range whatever the bounds). -/
 def RangeGuard (lo hi : FVal) (v : PyVal) : Prop :=
   lo ≠ .nan ∧ hi ≠ .nan ∧ ∀ i, v = .int i → floatOfInt i = some (FVal.ofInt i)
 
@@ -308,22 +308,25 @@ example : eval env0 r15 (.int 1) = .ok ∧ eval env0 r15 (.int 5) = .ok ∧ eval
 example : eval env0 r15 (.str "nan".toList) = .fail "E011" ∧ eval env0 r15 (.float "nan".toList .nan) = .fail "E011" := by decide
 /-- an int just above the largest binary64 (≈ 1.797·10^308) -/
 def hugeInt : Int := 179769313486231590772930519078902473361797697894230657273430081157732675805500963132708477322407536021120113879871393357658789768814416622492847430639474124377767893657175190231543223505632124129903584712028869632318800665427140160825523506532149958333981173696152128117405589926445134109200300003000030000300003000030000
-/-- known finding F36, on a witness: an int beyond the binary64 range makes `evaluate` raise -/
-theorem C08_F36_witness : "OverflowError" ∉ Gen.rangeCaught → eval env0 r15 (.int hugeInt) = .raise "OverflowError" := by
-  decide +kernel
 
-/-- outside F36 no member raises: `evaluate` returns a verdict whenever the value is not an int beyond the binary64 range -/
-theorem C08_no_raise_partial (env : Env) (c : Constraint) (v : PyVal) (hv : ∀ i, v = .int i → floatOfInt i ≠ none) (x : String) :
-    eval env c v ≠ .raise x := by
+/-- `RangeConstraint.evaluate` catches OverflowError around `float(value)` (C08N1 is fixed; regenerated from the source on every run) -/
+theorem gen_rangeCatchesOverflow : Gen.rangeCaught.contains "OverflowError" = true := by decide
+
+/-- an int beyond the binary64 range is reported as out of range (C08N1, fixed: it used to raise OverflowError) -/
+example : floatOfInt hugeInt = none ∧ eval env0 r15 (.int hugeInt) = .fail "E011" := by decide +kernel
+
+/-- **C08_no_raise.** No member's `evaluate` raises, for any constraint, any value and any environment: it always
+returns a verdict. -/
+theorem C08_no_raise (env : Env) (c : Constraint) (v : PyVal) (x : String) : eval env c v ≠ .raise x := by
   cases c <;> simp only [eval, evalReq, evalConst, evalEnum, evalType, evalRegex, evalDir, evalAppendOnly, evalMaxLength,
     evalMinLength, evalDate, evalIso8601, evalLiteral, evalLang] <;> try (repeat' split) <;> simp
   case range lo hi =>
-    simp only [evalRange]
+    simp only [evalRange, gen_rangeCatchesOverflow, ↓reduceIte]
     cases v with
     | int i =>
       simp only [isBool, toFloat]
       cases h : floatOfInt i with
-      | none => exact absurd h (hv i rfl)
+      | none => simp
       | some y => simp only [Bool.false_eq_true, ↓reduceIte]; split <;> simp
     | bool b => simp [isBool]
     | null => simp [isBool, toFloat]
@@ -332,7 +335,32 @@ theorem C08_no_raise_partial (env : Env) (c : Constraint) (v : PyVal) (hv : ∀ 
     | list xs => simp [isBool, toFloat]
     | zone a b d => simp [isBool, toFloat]
 
-example : ∀ i, (PyVal.int 7) = .int i → floatOfInt i ≠ none := by intro i h; cases h; decide
+/-- hence `ConstraintChain.evaluate` never raises either: it always returns a list of error codes -/
+theorem C08_chain_no_raise (env : Env) (cs : List Constraint) (v : PyVal) (x : String) : evalChain env cs v ≠ .raised x := by
+  have hff : ∀ cs : List Constraint, firstFailure env cs v ≠ .raise x := by
+    intro cs
+    induction cs with
+    | nil => simp [firstFailure]
+    | cons c cs ih =>
+      simp only [firstFailure]
+      cases hc : c.eval env v with
+      | ok => exact ih
+      | fail e => simp
+      | raise y => exact absurd hc (C08_no_raise env c v y)
+  unfold evalChain
+  simp only
+  split
+  · simp
+  · cases hf : firstFailure env cs v with
+    | ok => simp
+    | fail e => simp
+    | raise y =>
+      have := C08_no_raise
+      intro h
+      simp only [ChainResult.raised.injEq] at h
+      subst h
+      exact hff cs hf
+
 
 /-- MAX_LENGTH: strings and lists only, length ≤ N. -/
 theorem C08_maxLength (env : Env) (n : Int) (v : PyVal) : eval env (.maxLength n) v = .ok ↔ Spec.means env (.maxLength n) v := by
@@ -426,7 +454,7 @@ def MemberGuard (c : Constraint) (v : PyVal) : Prop :=
   | _ => True
 
 /-- **C08_member_spec_partial.** Every kind: `evaluate` accepts exactly when the documented meaning holds
-(RANGE under `RangeGuard`, see F19/F36). -/
+(RANGE under `RangeGuard`: numeric bounds, int value exactly representable as binary64). -/
 theorem C08_member_spec_partial (env : Env) (c : Constraint) (v : PyVal) (hg : MemberGuard c v) :
     c.eval env v = .ok ↔ Spec.means env c v := by
   cases c with
